@@ -789,6 +789,15 @@ def run(ctx):
             k = "%s_after_%d" % (p[0], p[1]) if len(p) > 1 else "five_in_a_row"
             hist["patterns"][k] = hist["patterns"].get(k, 0) + 1
 
+    # integer costs (numpy's integer rounding path; a seed sweep met 250000000001000 with precision 7): c05's sessions, here also
+    # under transient failures before the integer result
+    made = []
+
+    def faulty(cfg):
+        made.append(1)
+        return Session06(lab, dict(cfg, schedule=["T", "ok", "R", "N", "ok"][len(made) - 1:]), shaped())
+    for j, s in enumerate(base.integer_cost_sessions(lab, faulty)):
+        add(s, ("integer_costs", j))
     # every pattern of one design alone, and as first / middle / last design of a batch of three
     for p in pats:
         for rep in range(ctx.pick(2, 6)):
